@@ -1,5 +1,6 @@
 import PnVerif.Lemmas.Access
 import PnVerif.Lemmas.AccessInj
+import PnVerif.Lemmas.Contig
 import PnVerif.Base.File
 /-
   C01 — blocking put/get round-trip for every access pattern: the offset machinery.
@@ -134,6 +135,44 @@ theorem firstOffset_eq (v : VarLay) (start : List Nat) (h : start.length = v.sha
 
 example : firstOffset { begin := 64, xsz := 4, shape := [0, 3, 5], isRec := true, recsize := 100 } [2, 1, 3] = 296 := by decide
 
+/-- **is_request_contiguous is sound** (fixed-size variables): when the C test answers "contiguous" for
+    a request inside the shape, the addressed elements are exactly `Π count` consecutive elements
+    starting at the offset of `start` — which is what lets filetype_create_vara replace the file type
+    by the plain offset `ncmpio_first_offset` (see `firstOffset_eq`). -/
+theorem isReqContig_sound (v : VarLay) (hfix : v.isRec = false) (nrv : Nat) (s c : List Nat)
+    (hv : validReq v.shape s c) (hne : v.shape ≠ [])
+    (hc : isReqContig false nrv v.shape c = true) :
+    (enumIdx s c (ones v.shape.length)).map (elemOff v) = consec (elemOff v s) (prod c) v.xsz := by
+  obtain ⟨hvd, hpairs, hsum, hprod, hlen, hsl, hcl, hzero⟩ := zip_bridge v.xsz v.shape s c hv
+  have hsl' : s.length = c.length := by rw [hsl, hcl]
+  have hol : s.length = (ones v.shape.length).length := by simp [ones, hsl]
+  have hul : s.length = (unitsFixed v.xsz v.shape).length := by rw [unitsFixed_length, hsl]
+  -- the C test on this request is the scan over (shape, count)
+  have hscan : contigScan (v.shape.zip c).reverse = true := by
+    unfold isReqContig at hc
+    have h0 : (v.shape.length = 0) = False := by
+      simp only [eq_iff_iff, iff_false]; intro h; exact hne (List.length_eq_zero_iff.mp h)
+    simp only [h0, ↓reduceIte, hzero, Bool.false_eq_true, false_and] at hc
+    exact hc
+  rw [← hpairs, contigScan_eq_contigL _ _ hlen] at hscan
+  have hsound := contigL_sound v.xsz _ v.shape hvd hscan
+  rw [enumOff_zip s c (ones v.shape.length) (unitsFixed v.xsz v.shape) hsl' hol hul, hsum, hprod] at hsound
+  -- elemOff = begin + dot units
+  have hunits : units v = unitsFixed v.xsz v.shape := by simp [units, hfix]
+  have hrec : v.isRec = true → v.shape ≠ [] := fun h => by rw [hfix] at h; exact absurd h (by simp)
+  have hmap : (enumIdx s c (ones v.shape.length)).map (elemOff v)
+      = ((enumIdx s c (ones v.shape.length)).map (dot (unitsFixed v.xsz v.shape))).map (fun o => v.begin + o) := by
+    rw [List.map_map]
+    apply List.map_congr_left
+    intro idx _
+    simp [elemOff_eq_dot v idx hrec, hunits]
+  rw [hmap, hsound, consec_shift, elemOff_eq_dot v s hrec, hunits]
+
+example : isReqContig false 0 [4, 3, 5] [1, 2, 5] = true ∧ validReq [4, 3, 5] [2, 1, 0] [1, 2, 5] := by
+  constructor
+  · decide
+  · simp [validReq]
+
 /-! ### elements stay inside their variable and never share bytes -/
 
 theorem elem_inside_fixed (v : VarLay) (hf : v.isRec = false) (idx : List Nat) (hb : inBounds v.shape idx) :
@@ -212,7 +251,7 @@ theorem disjoint_puts_commute (f : File) (o1 o2 : Nat) (b1 b2 : List UInt8)
 example : inBounds [3, 5] [2, 4] ∧ inBounds [3, 5] [0, 0] := by decide
 
 def obligations : List String := [
-  "strideFlatten_offsets", "firstOffset_eq", "elem_inside_fixed", "elems_disjoint_fixed", "elem_inside_rec", "elems_disjoint_rec",
+  "strideFlatten_offsets", "firstOffset_eq", "isReqContig_sound", "elem_inside_fixed", "elems_disjoint_fixed", "elem_inside_rec", "elems_disjoint_rec",
   "put_get_roundtrip", "disjoint_puts_commute"
 ]
 end PnVerif.Props.C01
